@@ -289,6 +289,8 @@ impl MemoryBudget {
                 }
             }
 
+            #[cfg(kahflane_turdb_verif)]
+            crate::verif::yield_point("budget.check_cas");
             match pool_counter.compare_exchange_weak(
                 current_pool_used,
                 new_pool_used,
